@@ -71,6 +71,7 @@ func TestCheck(t *testing.T) {
 	r.Require("adds_scheduled", 100)
 	r.Require("adds_expired", 20)
 	r.Require("output_buffer_full_while_consumer_paused", 20)
+	r.Require("late_readds_of_pending_duties_racing_their_report", 50)
 
 	n := r.N(3000, 200000)
 	r.Cases(n, 0, func(c *kit.Case) { runCase(c) })
@@ -504,6 +505,35 @@ func runCase(c *kit.Case) {
 			}
 			clock.Advance(adv)
 			trace = append(trace, opRec{Op: "advance", Adv: adv.String(), Now: clock.Now().Sub(t0).String(), Status: map[bool]string{true: "consumer-paused"}[slow]})
+			if !slow && rng.Intn(3) == 0 {
+				// Late re-registration racing the report: duties that were registered in time and became due
+				// at this advance are registered AGAIN right away, before the deadliner has been given time to
+				// report them (its timer has fired, the loop may handle the registration first). The late
+				// registration is refused as expired; "registering a pending duty again has no further effect",
+				// so each of them must still be reported exactly once (seeded change C16-r8: the refused
+				// registration cancelled the pending expiry). Strictly after the deadline only: at the very
+				// instant either answer is allowed (see DESIGN).
+				nowA := clock.Now()
+				var due []core.Duty
+				mu.Lock()
+				for d := range m.pending {
+					if m.deadline[d].Before(nowA) {
+						due = append(due, d)
+					}
+				}
+				mu.Unlock()
+				sort.Slice(due, func(i, j int) bool { return fmt.Sprint(due[i]) < fmt.Sprint(due[j]) })
+				rng.Shuffle(len(due), func(i, j int) { due[i], due[j] = due[j], due[i] })
+				for i, d := range due {
+					if i >= 3 {
+						break
+					}
+					opHash = append(opHash, "late-readd", d)
+					doAdd(d, nowA, nowA, true)
+					readdPending = true
+					r.Count("late_readds_of_pending_duties_racing_their_report", 1)
+				}
+			}
 			if slow {
 				// let the deadliner work through everything that became due while nobody reads, then resume
 				ok := settlePaused()
